@@ -594,6 +594,14 @@ int cif_loop_get_packets(
         }
 
         FAILURE_HANDLER(soft):
+        if ((temp_it->name_set != NULL) && (temp_it->name_set->hh.tbl == NULL)) {
+            /*
+             * uthash could not allocate its table for the first name: HASH_ADD_KEYPTR has already made that element the
+             * head, but it belongs to no table, and the hash macros must not be applied to it.  Release it directly.
+             */
+            free(temp_it->name_set);
+            temp_it->name_set = NULL;
+        }
         /* clean up everything */
         cif_pktitr_free(temp_it);
     }
